@@ -304,6 +304,16 @@ func cmdFaults(args []string) error {
 					ev.Res = "err"
 				}
 				k.put(ev)
+				// the same fault reported together with a full count
+				if p == 0 || p == ref.Len()-1 || p == ref.Len()/2 {
+					fw := &iox.FailingWriter{Limit: p, Full: true}
+					res, msg := run.Guard(30*time.Second, func() { werr = writeDoc(wf, s0, fw) })
+					ev := ioEvent{Kind: "writefault", Fmt: wf, Doc: d.Name, Len: ref.Len(), K: p, Sched: "full-count", Inside: true, Res: res, Msg: msg}
+					if res == "ok" && werr != nil {
+						ev.Res = "err"
+					}
+					k.put(ev)
+				}
 			}
 		}
 	}
